@@ -50,7 +50,7 @@ def sched_constants(kind, tier, depth, outdir, tp=BIG_TP, genesis=False, skew=(0
     return dict(KIND=kind, TP=tp, MaxH=3 * depth, MaxT=6 * depth, MaxSeq=3 if tier == "quick" else 4,
                 DATA={"ok", "fail", "async", "ok2", "fail2", "fail3", "async1", "ok1"}, SENDERS={"A", "B"}, DTS={1, 2}, FREEZE=True,
                 TOH_OFFS={3, 6, 12}, TOT_OFFS={4, 9, 20} if tp > 1000 else {4, 9, 20, 90}, TOS_OFFS={2, 4, 9} if tp > 1000 else {2, 4, 9, 45},
-                Depth=depth, OutDir=outdir, HONEST_PCT=60, MACRO_PCT=50, EDGE_PCT=20, GENESIS=genesis, SKEW_A=skew[0], SKEW_B=skew[1])
+                Depth=depth, OutDir=outdir, HONEST_PCT=60, MACRO_PCT=55, EDGE_PCT=30, GENESIS=genesis, SKEW_A=skew[0], SKEW_B=skew[1])
 
 
 def sizes(tier):
